@@ -433,16 +433,24 @@ func (s *Service) accountPathsToVerificationRegexes(paths []string) map[string][
 		parts[0] = strings.TrimSuffix(parts[0], "$")
 		parts[1] = strings.TrimPrefix(parts[1], "^")
 		parts[1] = strings.TrimSuffix(parts[1], "$")
+		walletName := parts[0]
+		// Alternation binds more loosely than concatenation, so group a part that uses it
+		// to keep the anchors and the wallet/account separator applying to every alternative.
+		for i := range parts[:2] {
+			if strings.Contains(parts[i], "|") {
+				parts[i] = fmt.Sprintf("(?:%s)", parts[i])
+			}
+		}
 		specifier := fmt.Sprintf("^%s/%s$", parts[0], parts[1])
 		regex, err := regexp.Compile(specifier)
 		if err != nil {
 			log.Warn().Str("specifier", specifier).Err(err).Msg("Invalid path regex")
 			continue
 		}
-		if _, exists := regexes[parts[0]]; !exists {
-			regexes[parts[0]] = make([]*regexp.Regexp, 0)
+		if _, exists := regexes[walletName]; !exists {
+			regexes[walletName] = make([]*regexp.Regexp, 0)
 		}
-		regexes[parts[0]] = append(regexes[parts[0]], regex)
+		regexes[walletName] = append(regexes[walletName], regex)
 	}
 	return regexes
 }
